@@ -105,3 +105,28 @@ def reset_control_state(ctx, prefix=""):
                "A4 of the reset on a machine with every field unknown")
 
     return a0, i0
+
+
+def boundary_predicate(ctx, prefix=""):
+    """"instruction boundary" is what RawMachine::is_instruction_done (and its Machine wrapper) says: true exactly on the
+    fetch words (MAC3) of the control store, for every programmed control word (shared by C15 and C11)"""
+    from . import absint, step
+    p, chk, g = ctx.p, ctx.chk, ctx.graph
+    bad = []
+    n = 0
+    for ty, fn in ((step.RM, "is_instruction_done"), (step.MACHINE, "is_instruction_done")):
+        body = p.bodies.get("%s::%s" % (ty, fn))
+        if body is None:
+            continue
+        for a in sorted(g.prog):
+            I = absint.Interp(p)
+            ov = step.machine_overrides(p, a, None, None, stacksize_notset=True)
+            st, ma, r = step.run_method(p, I, "%s::%s" % (ty, fn), ov, ty=ty)
+            n += 1
+            want = a in g.done
+            if r not in (int(want), bool(want)) or isinstance(r, frozenset):
+                bad.append("%s at word %#05x says %r, the word %s a fetch word" % (ty.rsplit("::", 1)[-1], a, r, "is" if want else "is not"))
+    chk.ob(prefix + "boundary-predicate", not bad and n >= 200,
+           "is_instruction_done is true exactly on the fetch words of the control store (for every programmed control word)",
+           p.need_body(step.RM + "::is_instruction_done").loc(), "; ".join(bad[:3]) or "%d (function, word) cases" % n,
+           "A4 of is_instruction_done with the micro-address pinned, per programmed control word")
